@@ -41,6 +41,8 @@ CLAIMED = {
             'the intended AST semantics for all sample values'),
     'C16': ('6.C16', 'trace and extension are symbolic; z3 shows evaluate(w1++e) and evaluate(w1) agree for all values at every t with t+h inside w1 (discrete) and at '
             'every symbolic instant tau with tau+h < end(w1) (dense), h computed independently of rtamt'),
+    'C17': ('6.C17', 'every supported operator x monitor kind runs on symbolic 1-, 2- and 4-sample data (with unused/undeclared variables, permuted inputs): every path must '
+            'return normally; every unsupported construct x monitor kind must end in RTAMTException by the first evaluation, on the single data-independent path'),
 }
 NA = {
     'C14': 'the quantifier ranges over strings and every string is consumed by the ANTLR4 ATN interpreter, which cannot be encoded or '
